@@ -1,6 +1,8 @@
 """C11 - definitions are emitted exactly once each and after the definitions they use.
 Proof: Props/C11.v (toposort_impl is a permutation for every graph and topological on acyclic
-ones; sort_by_indices computes data[indices[i]]; topsort is a permutation of the items).
+ones; sort_by_indices computes data[indices[i]]; topsort is a permutation of the items; outside the
+finding classes the collected graph IS the declarative reference relation, hence with acyclic
+references every definition is emitted after all definitions it refers to).
 Correspondence: (a) toposort_impl and (b) sort_by_indices through the cfg(typeshare_verif) hooks on
 exhaustive small and random larger inputs; (c) topsort on generated item sets (<= 12 items, DAGs and
 cycles, references in every position and container), verdict by the extracted Gallina predicate."""
@@ -96,6 +98,13 @@ def wrap(rng, how, target, gen_name):
 def gen_items(rng, tricky):
     n = rng.randint(2, 12)
     names = [f'T{i}' for i in range(n)]
+    # names the collectors look up although they are no reference: a generic parameter (T), the id() of a
+    # special type standing as an argument of a typeshared generic (Vec, Option, HashMap, String, u8, [], &[])
+    shadow = tricky and rng.random() < 0.12
+    if shadow:
+        for nm in rng.sample(['T', 'T', 'Vec', 'Option', 'HashMap', 'String', 'u8'], rng.choice([1, 1, 2])):
+            if nm not in names:
+                names[rng.randrange(n)] = nm
     order = names[:]
     rng.shuffle(order)
     rank = {nm: i for i, nm in enumerate(order)}
@@ -114,7 +123,7 @@ def gen_items(rng, tricky):
         for _ in range(nrefs):
             tgt = rng.choice(cands)
             how = rng.choice(CONTAINERS if tricky else ['plain', 'vec', 'option', 'hashmap', 'known_generic', 'nested'])
-            gname = rng.choice([g for g in gstructs if g != nm] or [None])
+            gname = rng.choice([g for g in gstructs if g != nm or (tricky and rng.random() < 0.3)] or [None])
             use = renamed[tgt] if (tricky and rng.random() < 0.5) else tgt
             refs.append(wrap(rng, how, use, gname))
         idd = ir.mk_id(nm, renamed[nm], renamed[nm] != nm)
@@ -138,12 +147,74 @@ def gen_items(rng, tricky):
                           'decorators': [], 'is_recursive': False, 'is_redacted': False})
         elif k == 'alias':
             t = refs[0] if refs else ir.special('String')
-            items.append({'kind': 'alias', 'id': idd, 'generics': [], 'ty': t, 'comments': [], 'decorators': [], 'is_redacted': False})
+            agens = [rng.choice(['T', 'U'] + names)] if (tricky and rng.random() < 0.08) else []
+            if agens and rng.random() < 0.5:
+                t = ir.special('Vec', ir.simple(agens[0]))
+            items.append({'kind': 'alias', 'id': idd, 'generics': agens, 'ty': t, 'comments': [], 'decorators': [], 'is_redacted': False})
         else:
             t = ir.simple(rng.choice(cands)) if (cands and rng.random() < 0.6) else ir.special('U32')
             items.append({'kind': 'const', 'id': idd, 'ty': t, 'value': '7'})
+    if tricky and rng.random() < 0.04:
+        # a const may carry the name of a braced struct / enum / alias (different namespaces in Rust)
+        other = [it for it in items if it['kind'] != 'const']
+        if other:
+            o = rng.choice(other)
+            if not any(it['kind'] == 'const' and it['id']['original'] == o['id']['original'] for it in items):
+                items.append({'kind': 'const', 'id': ir.mk_id(o['id']['original']), 'ty': ir.special('U32'), 'value': '7'})
     rng.shuffle(items)
     # generate_types feeds aliases, structs, enums, consts in this order
+    kord = {'alias': 0, 'struct': 1, 'enum': 2, 'const': 3}
+    items.sort(key=lambda it: kord[it['kind']])
+    return items
+
+
+SPECIAL_IDS = [('Vec', lambda: ir.special('Vec', ir.special('U8'))), ('Option', lambda: ir.special('Option', ir.special('U8'))),
+               ('HashMap', lambda: ir.special('HashMap', ir.special('String'), ir.special('U8'))),
+               ('String', lambda: ir.special('String')), ('u8', lambda: ir.special('U8')), ('bool', lambda: ir.special('Bool'))]
+
+
+def gen_lookalike(rng):
+    """Directed shapes: names the collectors look up although they denote something else (a generic
+    parameter, the id() of a special type), a generic mentioning itself, alias generics, a const named
+    like a struct - each embedded in a small random acyclic context and fed in any kind-sorted order."""
+    fld = lambda i, t: {'id': ir.mk_id(f'f{i}'), 'ty': t, 'comments': [], 'has_default': False, 'decorators': []}
+    st = lambda nm, tys, gens=(): {'kind': 'struct', 'id': ir.mk_id(nm), 'generics': list(gens), 'fields': [fld(i, t) for i, t in enumerate(tys)],
+                                   'comments': [], 'decorators': [], 'is_redacted': False}
+    al = lambda nm, t, gens=(): {'kind': 'alias', 'id': ir.mk_id(nm), 'generics': list(gens), 'ty': t, 'comments': [], 'decorators': [], 'is_redacted': False}
+    co = lambda nm, t: {'kind': 'const', 'id': ir.mk_id(nm), 'ty': t, 'value': '7'}
+    user = lambda nm, t: rng.choice([st(nm, [t]), st(nm, [ir.special('Vec', t)]), al(nm, t), al(nm, ir.special('Option', t))])
+    a, b, g = rng.sample(['A', 'B', 'G', 'M', 'Q', 'Zed'], 3)
+    shape = rng.choice(['param', 'param', 'special', 'special', 'own', 'alias', 'alias_idle', 'dup', 'harmless', 'reuse', 'twice'])
+    if shape == 'param':        # struct a<T> { f: T, g: b }, item T uses a
+        items = [st(a, [ir.simple('T'), ir.simple(b)], ['T']), st(b, []), user('T', ir.generic(a, [ir.special('U8')]))]
+    elif shape == 'special':    # a { f: g<Vec<u8>> }, g<T>, an item named Vec that uses a
+        nm, mk = rng.choice(SPECIAL_IDS)
+        items = [st(a, [ir.generic(g, [mk()]), ir.simple(b)]), st(b, []), st(g, [ir.simple('T')], ['T']), user(nm, ir.simple(a))]
+    elif shape == 'own':        # struct a<T> { f: a<b> }: the arguments of a Generic named like the collecting item
+        items = [st(a, [ir.generic(a, [ir.simple(b)]), ir.simple('T')], ['T']), st(b, [])]
+    elif shape == 'alias':      # type a<T> = Vec<T>; item T uses a
+        items = [al(a, ir.special('Vec', ir.simple('T')), ['T']), user('T', ir.generic(a, [ir.special('U8')]))]
+    elif shape == 'alias_idle':  # alias generics that name no item: outside every class
+        items = [al(a, ir.special('Vec', ir.simple('T')), ['T']), st(b, [ir.generic(a, [ir.simple(g)])]), st(g, [])]
+    elif shape == 'reuse':      # a name first met as an argument, then as a generic with arguments of its own: outside every class
+        items = [st(a, [ir.generic(g, [ir.simple(b)]), ir.generic(b, [ir.simple('Zz')])]), st(g, [ir.simple('T')], ['T']),
+                 st(b, [ir.simple('T')], ['T']), st('Zz', [])]
+    elif shape == 'twice':      # one typeshared generic used twice with different arguments: outside every class
+        items = [st(a, [ir.generic(g, [ir.simple(b)]), ir.special('Vec', ir.generic(g, [ir.simple('Zz')]))]), st(g, [ir.simple('T')], ['T']),
+                 st(b, []), user('Zz', ir.special('U8'))]
+    elif shape == 'dup':        # a const named like the struct a field refers to
+        items = [st(a, [ir.simple(b)]), st(b, []), co(b, ir.special('U32'))]
+    else:                       # item named T / Vec present but nothing looks it up: outside every class
+        items = [st(a, [ir.special('Vec', ir.simple(b))]), st(b, []), st('T', [ir.simple(a)]), st('Vec', [ir.simple('T')])]
+    used = {it['id']['original'] for it in items}
+    for k in range(rng.choice([0, 0, 1, 2, 3])):     # context: later items may refer to earlier ones only
+        nm = f'X{k}'
+        tgt = rng.choice(sorted(used))
+        if tgt in ('T', 'Vec', 'Option', 'HashMap', 'String', 'u8', 'bool') and rng.random() < 0.7:
+            tgt = a
+        items.append(user(nm, ir.simple(tgt)))
+        used.add(nm)
+    rng.shuffle(items)
     kord = {'alias': 0, 'struct': 1, 'enum': 2, 'const': 3}
     items.sort(key=lambda it: kord[it['kind']])
     return items
@@ -154,7 +225,11 @@ def run(chk):
                 '(DAGs and cyclic, duplicate/unsorted rows, a few out-of-range entries); (b) sort_by_indices: every permutation of <=6 (quick) / <=7 '
                 'elements, random ones to 40, and non-permutations; (c) topsort on seeded item sets of 2-12 items of every kind with references '
                 'placed in fields, tuple and struct variants, alias targets, const types, through Vec/array/slice/Option/HashMap/generic '
-                'arguments, by original or renamed name, DAGs and cycles. non-trivial = distinct inputs with at least one edge / non-identity')
+                'arguments, by original or renamed name, DAGs and cycles; in a share of the sets an item is named like a generic parameter (T) or like '
+                'the id() of a special type (Vec, Option, HashMap, String, u8), a generic struct mentions itself with arguments, an alias has a '
+                'generic parameter (named like an item or not), a const shares the name of another item; plus directed sets built around each of these shapes '
+                '(and harmless look-alikes that are outside every class) in a random acyclic context. Verdict on the REAL order by the extracted good_C11; '
+                'on sets outside the classes the extracted model must itself satisfy good_C11 (theorem C11_topsort_good). non-trivial = distinct inputs with at least one edge / non-identity')
     chk.assumptions = ['the hooks core::verif_hooks::{toposort_impl,sort_by_indices,topsort} are thin wrappers (MANIFEST.hooks)']
     chk.prepare()
     if not chk.harness_ok:
@@ -223,7 +298,8 @@ def run(chk):
     chk.count('permutations', len(perms))
 
     # ---- (c) topsort on item sets
-    sets = [gen_items(rng, tricky=(k % 3 != 0)) for k in range(1500 if chk.tier == 'quick' else 25000)]
+    sets = [gen_items(rng, tricky=(k % 3 != 0)) for k in range(3000 if chk.tier == 'quick' else 40000)]
+    sets += [gen_lookalike(rng) for _ in range(600 if chk.tier == 'quick' else 8000)]
     sxs = [Lst(items, ir.sx_item) for items in sets]
     m = vf.model([f'(c11_topsort {sx})' for sx in sxs])
     i = vf.impl([{'cmd': 'topsort', 'items': items} for items in sets])
@@ -243,6 +319,7 @@ def run(chk):
             gidx.append(k)
     goods = dict(zip(gidx, vf.model(greq)))
     seen_known = {}
+    proof_broken = []
     for k, (items, a, b) in enumerate(zip(sets, m, i)):
         chk.evaluations += 1
         mo = sx_get(a, 'model')
@@ -262,6 +339,8 @@ def run(chk):
         good = sx_get(g, 'good') == 'true'
         perm = sx_get(g, 'perm') == 'true'
         equal = (om == oi)
+        if known is None and sx_get(a, 'good_model') != 'true':
+            proof_broken.append({'items': items, 'model_order': om[1]})
         if good and equal:
             continue
         if not perm:
@@ -279,6 +358,9 @@ def run(chk):
         else:
             corr.append({'fn': 'topsort', 'items': items, 'model': om, 'impl': oi, 'known_class': known})
     chk.count('item_sets', len(sets))
+    if proof_broken:
+        chk.violation('theorem', {'theorem': 'Props/C11.v C11_topsort_good', 'cases': proof_broken[:4]},
+                      'the extracted model contradicts theorem C11_topsort_good (known_C11 = None, yet good_C11 fails on the model output): proof, extraction or driver broken', no_input=True)
     chk.count('correspondence_mismatches', len(corr))
     if corr and not [v for v in chk.violations if not v[2]]:
         chk.violation('correspondence', {'correspondence': 'Model/TopsortAlgo.v + Model/Topsort.v vs core::verif_hooks', 'cases': corr[:8]},
